@@ -100,9 +100,22 @@ ev_request(int p, int nh)
 	qpipe[nq] = p;
 	nq++;
 	m->tag = nq;
+	int served0 = 0;
+	for (int i = 0; i < MAXU; i++)
+		if (uaio_used[i] && ukind[i] == 2 && env_aio_completed(&uaio_at(i)) > 0 && nni_aio_result(&uaio_at(i)) == 0)
+			served0++;
 	env_pipe_recv_done(&kpipe[p], m, 0);
 	kquiesce();
 	CHECK(!kpipe[p].closed, "a well-formed request does not disconnect its sender");
+	{
+		/* within the hop limit (MAXTTL 8: at most 8 backtrace words) it is offered to the application: it completes a
+		 * waiting receive or waits, with its connection, for the next one */
+		int served1 = 0;
+		for (int i = 0; i < MAXU; i++)
+			if (uaio_used[i] && ukind[i] == 2 && env_aio_completed(&uaio_at(i)) > 0 && nni_aio_result(&uaio_at(i)) == 0)
+				served1++;
+		CHECK(nni_list_active(&sock.recvpipes, &pd[p]) || served1 == served0 + 1, "a well-formed request within the hop limit is accepted: it is handed to a waiting receiver or kept for the next receive");
+	}
 	monitor();
 	WITNESS("request arrived");
 }
